@@ -1066,6 +1066,12 @@ def _val_to_numpy(
         common_dtype = np.result_type(*val_list)
         val_list = [v.astype(common_dtype) for v in val_list]
 
+    if len({v.flags.writeable for v in val_list}) > 1:
+        # a chunk with nulls is converted to a fresh (writeable) copy while the others are
+        # read-only views: numba cannot type the mixed collection, so freeze the copies too
+        for v in val_list:
+            v.setflags(write=False)
+
     if as_list:
         if any(v.dtype.kind in "OUST" for v in val_list):
             # numba cannot type a list of object/string arrays
